@@ -513,7 +513,24 @@ class EvalMixin(CallMixin):
 
     NEG = {"NotEq": "Eq", "IsNot": "Is", "NotIn": "In"}
 
+    STDLIB_CONST_PREFIXES = ("inspect.", "zmq.", "socket.", "signal.", "logging.", "errno.", "stat.", "enum.", "http.")
+
+    @classmethod
+    def ext_const(cls, t) -> bool:
+        """a reference to a constant of an external module (inspect.Parameter.KEYWORD_ONLY, zmq.POLLIN, inspect.Parameter.empty): a fixed object, equal only
+        to itself, different from every concrete value and from every other such constant"""
+        if not isinstance(t, (Sym, Attr)):
+            return False
+        k = t.key()
+        return k.startswith(cls.STDLIB_CONST_PREFIXES) and "(" not in k and "[" not in k
+
     def compare(self, op, l, r, node, fr) -> bool:
+        if op in ("Eq", "Is") and (self.ext_const(l) or self.ext_const(r)):
+            if self.ext_const(l) and self.ext_const(r):
+                return l.key() == r.key()
+            other = r if self.ext_const(l) else l
+            if not isinstance(other, Term):
+                return False
         if op in self.NEG:
             return not self.compare(self.NEG[op], l, r, node, fr)
         if op == "Gt":
@@ -573,6 +590,8 @@ class EvalMixin(CallMixin):
             m = self.repo.find_method(container.cls, "__contains__")
             if m is not None:  # a user-defined container: its own membership test decides
                 return self.truth(self.call_function(m, [item], {}, node, fr, self_value=container), node, fr)
+        if isinstance(container, (dict, set, frozenset, list, tuple)) and self.ext_const(item) and all(self.ext_const(x) or not isinstance(x, Term) for x in container):
+            return any(isinstance(x, Term) and x.key() == item.key() for x in container)
         if isinstance(container, (dict, set, frozenset, list, tuple)):
             if isinstance(item, Term):
                 if any(isinstance(x, Term) and x == item for x in container):
